@@ -26,7 +26,7 @@ COVER = {
     'src/rtps/fragment_assembler.rs': ['C05', 'C01', 'C02', 'C06'],
     'src/rtps/writer.rs': RTPS_W + ['C11'],
     'src/rtps/rtps_reader_proxy.rs': RTPS_W,
-    'src/rtps/message_receiver.rs': ['C01', 'C06', 'C02', 'C14'],
+    'src/rtps/message_receiver.rs': ['C01', 'C06', 'C02', 'C14', 'C17'],
     'src/rtps/message.rs': ['C14', 'C06', 'C04'],
     'src/rtps/submessage.rs': ['C14', 'C06'],
     'src/rtps/dp_event_loop.rs': ['C11', 'C12'],
@@ -50,7 +50,7 @@ COVER = {
     'src/dds/ddsdata.rs': ['C05', 'C01'],
     'src/dds/with_key/datasample_cache.rs': ['C08'],
     'src/dds/with_key/datareader.rs': ['C08', 'C09', 'C13'],
-    'src/dds/no_key/datareader.rs': ['C09', 'C08'],
+    'src/dds/no_key/datareader.rs': ['C08', 'C09'],
     'src/dds/with_key/simpledatareader.rs': ['C09', 'C01', 'C13', 'C08'],
     'src/dds/no_key/simpledatareader.rs': ['C09'],
     'src/dds/with_key/datawriter.rs': ['C13', 'C20', 'C04'],
@@ -71,11 +71,11 @@ COVER = {
     'src/security/cryptographic/cryptographic_builtin/key_material.rs': ['C16'],
     'src/security/security_plugins.rs': ['C17', 'C16'],
     'src/security/access_control/access_control_builtin/domain_participant_permissions_document.rs': ['C18'],
-    'src/security/access_control/access_control_builtin/domain_governance_document.rs': ['C18'],
+    'src/security/access_control/access_control_builtin/domain_governance_document.rs': ['C17', 'C18'],
     'src/security/access_control/access_control_builtin/permissions_document.rs': ['C18'],
     'src/security/access_control/access_control_builtin/helpers.rs': ['C18'],
-    'src/security/access_control/access_control_builtin/participant_access_control.rs': ['C18'],
-    'src/security/access_control/access_control_builtin/local_entity_access_control.rs': ['C18'],
+    'src/security/access_control/access_control_builtin/participant_access_control.rs': ['C18', 'C17'],
+    'src/security/access_control/access_control_builtin/local_entity_access_control.rs': ['C18', 'C17'],
     'src/security/access_control/access_control_builtin/remote_entity_access_control.rs': ['C18'],
     'src/security/config.rs': ['C18'],
     'src/security/authentication/authentication_builtin/authentication.rs': ['C19'],
